@@ -230,3 +230,10 @@ func minInt(a, b int) int {
 }
 
 func init() { checks["C18"] = checkC18 }
+
+func maxInt(a, b int) int {
+	if a > b {
+		return a
+	}
+	return b
+}
